@@ -255,12 +255,12 @@ def rule_carried_commitment_equalities(ctx, cfg='prod-all'):
         (POKI + 'proof_verify', [
             {'id': 'Ce==range_proof_e.E', 'what': 'range proof on e is about the commitment Ce of the signature proof', 'gate_callee': ['PartialEq'],
              'cover': ['self.spok.Ce.value', 'self.range_proof_e.E'], 'pure': ['self.spok.Ce.value', 'self.range_proof_e.E']},
-            {'id': 'cmi==range_proofs_commited_mi.E', 'what': 'per-attribute range proof is about the commitment the PoK of m_i is about', 'gate_callee': ['PartialEq'],
+            {'id': 'cmi==range_proofs_commited_mi.E', 'any_path': True, 'what': 'per-attribute range proof is about the commitment the PoK of m_i is about', 'gate_callee': ['PartialEq'],
              'cover': ['self.proofs_commited_mi.commitment.value', 'self.range_proofs_commited_mi.E'],
              'pure': ['self.proofs_commited_mi.commitment.value', 'self.range_proofs_commited_mi.E']},
         ]),
         (ZKI + 'verify_proof', [
-            {'id': 'cmi==range_proofs_mi.E', 'what': 'per-attribute range proof is about the commitment the PoK of m_i is about', 'gate_callee': ['PartialEq'],
+            {'id': 'cmi==range_proofs_mi.E', 'any_path': True, 'what': 'per-attribute range proof is about the commitment the PoK of m_i is about', 'gate_callee': ['PartialEq'],
              'cover': ['self.proofs_commited_mi.commitment.value', 'self.range_proofs_mi.E'],
              'pure': ['self.proofs_commited_mi.commitment.value', 'self.range_proofs_mi.E']},
             {'id': 'cr==range_proof_r.E', 'what': 'range proof on r is about the commitment the PoK of r is about', 'gate_callee': ['PartialEq'],
